@@ -1,7 +1,6 @@
 """C04 — selective loading equals filtering the full load (CPU pre-selection is sound)."""
 from __future__ import annotations
 
-from . import io_rules2 as io2
 from . import loader_rules as lr
 
 EXPLANATION = "(R1) the 8x2x12 state table used by _hilbert3d satisfies the automaton axioms (digit permutation per state, states in range and reachable) and generates, in the checker's own automaton, a bijective unit-step curve with the RAMSES end points for bit lengths 1-4; _hilbert3d interpreted on the COMPLETE domain of cells for bit lengths 1 and 2 equals that automaton (bit/slot roles); (R3) Loader.load fold: cells selected with the conjunction of every reader's conditions incl. the leaf flags; leaf rule; predicates applied to unit-carrying buffers; (R5) Loader.load fold: Hilbert list used when no explicit list, explicit list wins, no files without cpu readers; hilbert_cpu_list over abstract predicates (symbolic first/last selected centre): box = [first centre - half cell, last centre + half cell] per axis, early exits return None; (R6) _read_bound_key on token lines; _get_cpu_list over every order type of a cube key range against the cpu key intervals, box size classes, the 8-corner cube product and the key stride with and without a level cap."
@@ -20,16 +19,10 @@ def r1(run, tree):
 
 
 def r3(run, tree):
-    run.rule("C04.R3", "predicates ANDed with the leaf mask on unit-carrying buffers", "path rule", "", floor=4)
+    run.rule("C04.R3", "every user predicate is applied once to the unit-carrying buffer of its own variable, the entries of all readers survive the Loader's merge, and the Loader ANDs them with the leaf mask into the one selection used for every variable", "D7 folds of Loader.load (recording readers) and of the readers' make_conditions", "", floor=4)
     lfold.check_load(run, tree)
     lay.check_leaf_rule(run, tree)
-    import ast
-    from ..source import norm, walk_no_nested
-    fi = tree.func("io/reader.py::Reader.make_conditions")
-    t = [norm(s) for s in walk_no_nested(fi.node) if isinstance(s, ast.stmt)]
-    ok = "conditions[key] = func(self.variables[key]['buffer'])" in t and any(x.startswith("for key, func in select.items()") for x in t)
-    run.ob("io/reader.py::Reader.make_conditions::unit-carrying-buffers", ok, fi.where(), "predicates applied to the variable's buffer Array for every selected key: %s" % ok,
-           "a predicate such as `x > 1*kpc` is compared with raw code-unit numbers")
+
 
 
 def r5(run, tree):
